@@ -176,11 +176,13 @@ example : agree [] [] 6 (.map (.prim .text) (.seq .nat))
 /-! ## native decoding against untyped decoding, for every wire type and every input -/
 
 /-- **native decoding at a Rust type agrees with untyped decoding at its Candid type** (mirrors `Native.lean` and
-`De.lean`).  For every environment, every Rust type `t` of the grammar without tuples, maps, 128-bit integers, arrays,
+`De.lean`).  For every environment, every Rust type `t` of the grammar without tuples, 128-bit integers, arrays,
 bounded vectors and byte sequences read as `Vec<u8>` (`ByteBuf` is covered), every expected type `e` that is `t`'s
 Candid type in the strict sense of `agreeS`, **every wire type `w`** whose records and variants list their fields in
 ascending order of id (`srt`, `SortedEnv`: what the header parser guarantees of every type table), every input and
-decoder state with nothing metered, and every pair of depth budgets: unless one of the two runs is starved of its budget (`err limit`), the two
+decoder state with nothing metered, and every pair of depth budgets: unless one of the two runs stops at a limit of the
+host (`err limit`: the depth budget ran out, or — native side, maps read under a shortcut — seven times the announced
+number of entries does not fit a machine word, "Map length overflow"), the two
 runs end the same way — both return the same value and leave the same input and the same subtype memo, or both fail
 with a subtype error (so an enclosing option backtracks in both), or both fail with an error, or both hit a panic site
 of the shared subtype checker.  (`SimN` spells this out; the native run is in a state with `is_untyped = false`, the
@@ -226,6 +228,13 @@ theorem untyped_acceptance_is_native_acceptance (mk : String → NR) (env : Env)
     | sub d q => rw [hx] at h; exact absurd h (by simp)
     | err x => rw [hx] at h; exact absurd h (by simp)
     | panic x => rw [hx] at h; exact absurd h (by simp)
+
+/-- non-vacuity: `BTreeMap<String, Vec<Nat>>` (key read under the text shortcut) and `BTreeMap<u32, Int>` (value read
+under the big-number shortcut) against their Candid types, strictly, to depth 6 -/
+example : agreeS [] [] 6 (.map (.prim .text) (.seq .nat))
+    (.vec (.record (.cons (.id 0) (.prim .text) (.cons (.id 1) (.vec (.prim .nat)) .nil)))) = true := by decide
+example : agreeS [] [] 6 (.map (.prim .nat32) .int)
+    (.vec (.record (.cons (.id 0) (.prim .nat32) (.cons (.id 1) (.prim .int) .nil)))) = true := by decide
 
 /-- non-vacuity: `Vec<Option<Nat>>` against its Candid type, strictly, to depth 5 -/
 example : agreeS [] [] 5 (.seq (.opt .nat)) (.vec (.opt (.prim .nat))) = true := by decide
